@@ -50,6 +50,7 @@ type sigVariant struct {
 	tweak  func(info *nfpm.Info, rec *cbRecord)
 	expect string // ok | signing-error | either
 	ring   func() openpgp.EntityList // the public keys the signature must verify with (default: testdata/pubkey.asc)
+	env    map[string]string         // process environment while packaging
 }
 
 // a second key pair, made once per run: for key files whose content changes between two packagings
@@ -206,6 +207,27 @@ func sigVariants() []sigVariant {
 			set(info, "rotating.asc")
 		}, expect: "ok", ring: func() openpgp.EntityList { return openpgp.EntityList{otherKey} }})
 	}
+	// an invalid type is invalid whoever signs: a callback without any key file
+	vs = append(vs, sigVariant{name: "debsign-callback-type-invalid", format: "deb", tweak: func(info *nfpm.Info, rec *cbRecord) {
+		info.Deb.Signature.Type = "bogus"
+		info.Deb.Signature.SignFn = func(r io.Reader) ([]byte, error) {
+			data, _ := io.ReadAll(r)
+			var sig bytes.Buffer
+			err := openpgp.ArmoredDetachSign(&sig, pgpEntity(testdata("privkey_unprotected.asc"), ""), bytes.NewReader(data), nil)
+			return sig.Bytes(), err
+		}
+	}, expect: "signing-error"})
+	// a reproducible-builds environment: SOURCE_DATE_EPOCH far in the past, before the signing key was made
+	for _, v := range []struct{ name, format, method string }{{"debsign-sde-1980", "deb", ""}, {"dpkgsig-sde-1980", "deb", "dpkg-sig"}, {"rpm-sde-1980", "rpm", ""}} {
+		v := v
+		vs = append(vs, sigVariant{name: v.name, format: v.format, env: map[string]string{"SOURCE_DATE_EPOCH": "315532800"}, tweak: func(info *nfpm.Info, _ *cbRecord) {
+			if v.format == "deb" {
+				info.Deb.Signature.KeyFile, info.Deb.Signature.Method = testdata("privkey_unprotected.asc"), v.method
+			} else {
+				info.RPM.Signature.KeyFile = testdata("privkey_unprotected.asc")
+			}
+		}, expect: "ok"})
+	}
 	vs = append(vs, sigVariant{name: "debsign-type-invalid", format: "deb", tweak: func(info *nfpm.Info, _ *cbRecord) {
 		info.Deb.Signature.KeyFile = testdata("privkey_unprotected.asc")
 		info.Deb.Signature.Type = "bogus"
@@ -269,7 +291,12 @@ func sigVariants() []sigVariant {
 	type rk struct{ name, file, pass string }
 	for _, k := range []rk{{"rsa", testdata("rsa_unprotected.priv"), ""}, {"rsa-protected", testdata("rsa.priv"), testPass}, {"rsa-pkcs8", testdata("rsa_pkcs8.priv"), testPass}} {
 		k := k
-		for _, kn := range []string{"", "verif", "named.rsa.pub"} {
+		kns := []string{"", "verif", "named.rsa.pub"}
+		if k.name == "rsa" {
+			// names in which ".pub" / ".rsa" are not an extension to be completed
+			kns = append(kns, "ops@example.pub", "key.rsa", "a.pub.rsa")
+		}
+		for _, kn := range kns {
 			kn := kn
 			vs = append(vs, sigVariant{name: "apk-" + k.name + "-keyname=" + kn, format: "apk", tweak: func(info *nfpm.Info, _ *cbRecord) {
 				info.APK.Signature.KeyFile, info.APK.Signature.KeyPassphrase, info.APK.Signature.KeyName = k.file, k.pass, kn
@@ -430,7 +457,13 @@ func runC10Case(w *caseWriter, id string, d sigDesc, variants map[string]sigVari
 	rec := &cbRecord{}
 	var out bytes.Buffer
 	var info0 *nfpm.Info
+	for k, val := range v.env {
+		os.Setenv(k, val)
+	}
 	err := packageInto(d.YAML, d.Format, &out, func(info *nfpm.Info) { v.tweak(info, rec); info0 = info })
+	for k := range v.env {
+		os.Unsetenv(k)
+	}
 	w.line("sexpect %s %d", xs(v.expect), b2i(strings.HasSuffix(v.name, "callback-fails")))
 	if err != nil {
 		var se *nfpm.ErrSigningFailure
